@@ -5,7 +5,7 @@ import ast
 
 from ..cfg import CFG, assume_truth
 from ..engine import AnalysisError, MechanismMissing, PropertySpec, norm
-from ..pyutil import call_name, calls, const_str, dotted, is_name, walk_local
+from ..pyutil import inlined as _inlined, call_name, calls, const_str, dotted, is_name, walk_local
 from ._listener import listener_symmetry
 
 GEN = "src/pymoca/backends/casadi/generator.py"
@@ -94,6 +94,8 @@ def r10_1(ctx, rep):
             tgt, val = n.value.func.value, n.value.args[0] if n.value.args else None
         if tgt is None or val is None:
             continue
+        if norm(tgt).startswith("self.model."):
+            val = _inlined(val, fn.body, keep=set(lists.values()))  # through any chain of explanatory locals
         for c in ([val] if isinstance(val, ast.Call) else []) + [x for x in ast.walk(val) if isinstance(x, ast.Call)]:
             if isinstance(c.func, ast.Attribute) and c.func.attr == "_ast_symbols_to_variables" and c.args and isinstance(c.args[0], ast.Name):
                 feeds.setdefault(c.args[0].id, set()).add(norm(tgt))
@@ -142,9 +144,10 @@ def r10_2(ctx, rep):
     for base, a, b in (("constants", "constants", "string_constants"), ("parameters", "parameters", "string_parameters")):
         comps = {}
         for n in walk_local(fn):
-            if isinstance(n, ast.Assign) and norm(n.targets[0]) in ("self.model." + a, "self.model." + b) and isinstance(n.value, ast.ListComp):
-                g = n.value.generators[0]
-                if len(g.ifs) == 1 and isinstance(g.ifs[0], ast.Call) and is_name(g.ifs[0].func, "isinstance") and is_name(n.value.elt, g.target.id):
+            if isinstance(n, ast.Assign) and norm(n.targets[0]) in ("self.model." + a, "self.model." + b) and isinstance(_inlined(n.value, fn.body), ast.ListComp):
+                lc = _inlined(n.value, fn.body)
+                g = lc.generators[0]
+                if len(g.ifs) == 1 and isinstance(g.ifs[0], ast.Call) and is_name(g.ifs[0].func, "isinstance") and is_name(lc.elt, g.target.id):
                     comps[norm(n.targets[0]).split(".")[-1]] = (norm(g.iter), norm(g.ifs[0].args[1]))
         ok = set(comps) == {a, b} and comps[a][0] == comps[b][0] and comps[a][1] == "Variable" and comps[b][1] == "StringVariable"
         rep.ob(R, SITE, "%s split" % base, ok, "model.%s = the Variable instances, model.%s = the StringVariable instances of one list; found %s" % (a, b, comps))
@@ -208,6 +211,26 @@ def r10_5(ctx, rep):
                     ok = bool(g1) and bool(g2)
     rep.ob(R, TREE + ":StateAnnotator.exitComponentRef", "state only inside der()", ok,
            "the 'state' prefix may only be appended while inside a der() operand (in_der > 0), and not twice")
+    # ... and there for every symbol of the class: from the successful look-up of the symbol every path to the end of the handler passes the
+    # append or the knowledge that the prefix is already there (a differentiated `output` is a state all the same)
+    if fn is not None:
+        cfg = CFG(fn, R)
+        apps = [x for x in cfg.stmts() if any(isinstance(c.func, ast.Attribute) and c.func.attr == "append" and norm(c.func.value).endswith(".prefixes") and c.args
+                                              and const_str(c.args[0]) == "state" for c in calls(x.ast))]
+        looks = [x for x in cfg.stmts() if isinstance(x.ast, ast.Assign) and ".symbols[" in norm(x.ast.value)]
+        if apps and looks:
+            recv = [norm(c.func.value) for c in calls(apps[0].ast) if isinstance(c.func, ast.Attribute) and c.func.attr == "append"][0]
+            known = {x.id for x in cfg.nodes if x.kind == "assume" and assume_truth(x, "'state' in %s" % recv) is True}
+            handlers = {h.id for h in cfg.nodes if h.kind == "handler"}  # leaving through the KeyError handler: not a symbol of this class
+            w = None
+            for l in looks:
+                for s_ in cfg.succ[l.id]:
+                    if s_ in handlers:
+                        continue
+                    w = w or cfg.path(s_, cfg.exit, avoid={a.id for a in apps} | known | handlers)
+            rep.ob(R, TREE + ":StateAnnotator.exitComponentRef", "every differentiated symbol becomes a state", w is None,
+                   "after the symbol was found the handler can end without `prefixes.append('state')` although 'state' is not known to be there: "
+                   "some differentiated variables (by prefix, by kind) stay algebraic while their derivative symbol exists", path=cfg.describe(w) if w else "")
 
 
 @SPEC.rule(
